@@ -1,6 +1,6 @@
 (* C10 - Signals reach the debuggee exactly once.
    Statements only; proofs are in ProofsTracer.v. *)
-From BS Require Import Model.Base.
+From BS Require Import Model.Base Gen.Tracer.
 From W Require Import ModelTracer ProofsTracer.
 Open Scope N_scope.
 
@@ -19,21 +19,52 @@ Theorem C10_continue_nothing_else : forall t k sch x sg rest t1 w1, keys_ok t ->
   k_deliv (fst w1) = k_deliv k \/ k_deliv (fst w1) = k_deliv k ++ [(x, sg)].
 Proof. exact inject_nothing_else. Qed.
 
-(* REFUTED: SIGALRM arriving inside single_step is delivered twice *)
-Theorem C10_quiet_in_step_refuted :
+(* CURRENT code (Gen.Tracer.STEP_QUIET_DEQUEUES = true): SIGALRM arriving inside single_step is
+   delivered exactly once, no stop is reported, the queue ends empty *)
+Theorem C10_quiet_in_step_now :
+  exists d k srs,
+    k_api_run 50 [] (mkD (tinit [(1, 100)]) 1 100) (kinit [(1, 100)] [] [], [CSend 1 SIGALRM]) [OStepi; OCont]
+      = Ok (d, (k, []), srs)
+    /\ srs = [None; Some (SRExit 0)] /\ sig_reports srs = []
+    /\ k_sent k = [(1, SIGALRM)] /\ k_deliv k = [(1, SIGALRM)] /\ t_queue (d_tr d) = []
+    /\ spec_delivery (k_sent k) (k_deliv k) = true /\ spec_reported (k_sent k) (sig_reports srs) = true.
+Proof. exact ProofsTracer.C10_quiet_in_step_now. Qed.
+
+Theorem C10_quiet_burst_now :
+  run_summary (k_api_run 50 [] (mkD (tinit [(1, 100)]) 1 100)
+     (kinit [(1, 100)] [] [], [CSend 1 SIGALRM; CRun 1; CSend 1 SIGALRM]) [OStepi; OStepi; OCont])
+  = Some ([None; None; Some (SRExit 0)],
+          [(1, SIGALRM); (1, SIGALRM)], [(1, SIGALRM); (1, SIGALRM)], [], [(1, 100); (1, 101)]).
+Proof. exact ProofsTracer.C10_quiet_burst_now. Qed.
+
+(* general, current code: for every tracer state, table, kernel state and schedule, a quiet signal
+   stop seen inside single_step is queued by apply_new_status, taken back by single_step (queue
+   as before the step) and handed to the thread exactly once by the PTRACE_SINGLESTEP *)
+Theorem C10_quiet_in_step_general : forall f bps t k sch pid sg code pc st,
+  quiet sg = true -> tget (t_threads t) pid = Some st -> sigstop_ready k pid = true ->
+  exists t2,
+    k_ans_gen true (S f) bps t (k, sch) (WStopped pid sg code pc) = Ok (t2, (k, sch), Some (SRSignal pid sg))
+    /\ t_queue t2 = t_queue t ++ [(pid, sg)]
+    /\ t_queue (with_queue t2 (remove_last_pair (t_queue t2) (pid, sg))) = t_queue t
+    /\ forall ok w3, kw_req (k, sch) (PStep pid sg) = (ok, w3) -> k_deliv (fst w3) = k_deliv k ++ [(pid, sg)].
+Proof. exact quiet_in_step_once. Qed.
+
+(* REFUTED for the code BEFORE the repair (dequeue = false): delivered twice *)
+Theorem C10_quiet_in_step_refuted_old :
   exists sch ops d k srs,
-    k_api_run 50 [] (mkD (tinit [(1, 100)]) 1 100) (kinit [(1, 100)] [] [], sch) ops = Ok (d, (k, []), srs)
+    k_api_run_gen false 50 [] (mkD (tinit [(1, 100)]) 1 100) (kinit [(1, 100)] [] [], sch) ops = Ok (d, (k, []), srs)
     /\ k_sent k = [(1, SIGALRM)] /\ k_deliv k = [(1, SIGALRM); (1, SIGALRM)]
     /\ k_threads k = [] /\ spec_delivery (k_sent k) (k_deliv k) = false.
-Proof. exact ProofsTracer.C10_quiet_in_step_refuted. Qed.
+Proof. exact ProofsTracer.C10_quiet_in_step_refuted_old. Qed.
 
-(* REFUTED: two SIGALRMs inside steps: three deliveries and a stop reported for a quiet signal *)
-Theorem C10_quiet_burst_refuted :
-  run_summary (k_api_run 50 [] (mkD (tinit [(1, 100)]) 1 100)
+(* REFUTED for the code BEFORE the repair: three deliveries for two SIGALRMs and a stop reported
+   for a quiet signal *)
+Theorem C10_quiet_burst_refuted_old :
+  run_summary (k_api_run_gen false 50 [] (mkD (tinit [(1, 100)]) 1 100)
      (kinit [(1, 100)] [] [], [CSend 1 SIGALRM; CRun 1; CSend 1 SIGALRM]) [OStepi; OStepi; OCont; OCont])
   = Some ([None; None; Some (SRSignal 1 SIGALRM); Some (SRExit 0)],
           [(1, SIGALRM); (1, SIGALRM)], [(1, SIGALRM); (1, SIGALRM); (1, SIGALRM)], [], [(1, 100); (1, 101)]).
-Proof. exact ProofsTracer.C10_quiet_burst_refuted. Qed.
+Proof. exact ProofsTracer.C10_quiet_burst_refuted_old. Qed.
 
 (* REFUTED: a signal reported by stepi is withheld by the next stepi (the thread executes on,
    no handler), it only reaches the debuggee at the next continue *)
@@ -60,7 +91,14 @@ Example C10_nonvacuous :
               [(SIGALRM, 1); (SIGUSR1, 1); (SIGINT, 0)], [(1, SIGINT); (2, SIGUSR1)]) = 0.
 Proof. vm_compute. reflexivity. Qed.
 
+(* the accounting checker runs the CURRENT code: stepi with a SIGALRM, then continue: counter 1 *)
+Example C10_acct_quiet_in_step_now : acct_check ([1], [ASend 1 SIGALRM; AOp OStepi; AOp OCont], [(SIGALRM, 1)], []) = 0.
+Proof. vm_compute. reflexivity. Qed.
+
 Print Assumptions C10_continue_partial.
 Print Assumptions C10_continue_nothing_else.
-Print Assumptions C10_quiet_in_step_refuted.
+Print Assumptions C10_quiet_in_step_now.
+Print Assumptions C10_quiet_in_step_general.
+Print Assumptions C10_quiet_in_step_refuted_old.
+Print Assumptions C10_step_suppresses_refuted.
 Print Assumptions C10_signal_lost_refuted.
